@@ -7,21 +7,11 @@ Open Scope string_scope.
 
 (* (object file, symbol, size in bytes) of every object in a writable section *)
 Definition statics : list (string * string * N) := [
-  ("archive_time.c", "dos_initialised", 1%N);
-  ("archive_time.c", "dos_max_unix", 8%N);
-  ("archive_time.c", "dos_min_unix", 8%N);
-  ("archive_version_details.c", "init", 4%N);
-  ("archive_version_details.c", "mtx", 40%N);
   ("archive_version_details.c", "str", 24%N)
 ].
 
 (* section each of them lives in (same order) *)
 Definition statics_sections : list string := [
-  ".bss.dos_initialised";
-  ".bss.dos_max_unix";
-  ".bss.dos_min_unix";
-  ".bss.init.1";
-  ".bss.mtx.2";
   ".bss.str.0"
 ].
 
